@@ -74,7 +74,7 @@ CLAIMED = {
              "in Dirichlet mode (strictly, by induction inward from the boundary).  Across the origin positive definiteness does NOT follow "
              "from pointwise ellipticity (machine-checked counterexample psd_across_fails), so there it is measured: the check reads the "
              "matrix off the real residual operators and runs an exact rational LDL^T of its interior block.",
-        design_ref="DESIGN.md section 4, C05", note="PARTIAL across the origin (measured per case, not proved); line blocks inherit SPD as restrictions of the form (not formalised separately).",
+        design_ref="DESIGN.md section 4, C05", note="PARTIAL across the origin (measured per case, not proved); line blocks: SPD of the stored smoother line matrices is proved in Dirichlet mode (C06d), a hypothesis across the origin.",
         technique="Lean 4 proof (energy decomposition, sum-of-squares) + matrix read-off with exact LDL^T"),
     "C08": dict(
         category="proof",
@@ -150,7 +150,11 @@ CLAIMED = {
              "symmetric storage represents those rows) and code_sweep_isSweep: whatever the modelled smoothing() returns satisfies every "
              "sweep equation of the spec (under exact line solves, which linesOK_of_spd derives from SPD line blocks), so all spec "
              "theorems apply to the code-level sweep; tie: every stored matrix entry, temp and the sweep result of the real classes "
-             "against the model in exact rationals and in IEEE double (take path bit-identical).",
+             "against the model in exact rationals and in IEEE double (take path bit-identical).  DIRICHLET MODE (C06d): the stored circle "
+             "and radial matrices are SPD (C05.pd_dirichlet transported to the stored arrays), the innermost circle's matrix is the "
+             "identity, hence LinesOK is a theorem and code_sweep_isSweep_dirichlet / code_sweep_energy_dirichlet hold with no hypothesis "
+             "on the line solves: the modelled smoothing() never divides by zero, is an exact zebra relaxation and never increases the "
+             "energy norm of the error.",
         design_ref="DESIGN.md section 4, C06 and R.9", note="the give variant's scatter assembly and the extrapolated smoothers are tied by correspondence to the take model / the spec; energy monotonicity across the origin inherits the C05 gap.",
         technique="Lean 4 proof about the relaxation spec + defect check of the implementation's output"),
     "C07": dict(
